@@ -83,7 +83,7 @@ func BuildSchemaValidationV31(schema *base.Schema, validationString string, fiel
 			}
 		case "min":
 			if specType == "string" {
-				val := swagtool.ParseInteger(ruleValue)
+				val := swagtool.ParseNonNegativeInteger(ruleValue)
 				schema.MinLength = val
 			} else if specType == "integer" || specType == "number" {
 				schema.Minimum = swagtool.ParseNumber(ruleValue)
@@ -92,7 +92,7 @@ func BuildSchemaValidationV31(schema *base.Schema, validationString string, fiel
 			}
 		case "max":
 			if specType == "string" {
-				val := swagtool.ParseInteger(ruleValue)
+				val := swagtool.ParseNonNegativeInteger(ruleValue)
 				schema.MaxLength = val
 			} else if specType == "integer" || specType == "number" {
 				schema.Maximum = swagtool.ParseNumber(ruleValue)
@@ -101,7 +101,7 @@ func BuildSchemaValidationV31(schema *base.Schema, validationString string, fiel
 			}
 		case "len":
 			if specType == "string" {
-				length := swagtool.ParseInteger(ruleValue)
+				length := swagtool.ParseNonNegativeInteger(ruleValue)
 				schema.MinLength = length
 				schema.MaxLength = length
 			} else {
@@ -115,14 +115,14 @@ func BuildSchemaValidationV31(schema *base.Schema, validationString string, fiel
 			}
 		case "minItems":
 			if specType == "array" {
-				val := swagtool.ParseInteger(ruleValue)
+				val := swagtool.ParseNonNegativeInteger(ruleValue)
 				schema.MinItems = val
 			} else {
 				log.Printf("Validation rule 'minItems' is only applicable to array fields, got %s", specType)
 			}
 		case "maxItems":
 			if specType == "array" {
-				val := swagtool.ParseInteger(ruleValue)
+				val := swagtool.ParseNonNegativeInteger(ruleValue)
 				schema.MaxItems = val
 			} else {
 				log.Printf("Validation rule 'maxItems' is only applicable to array fields, got %s", specType)
